@@ -314,6 +314,69 @@ fn matrix(cfg: WorldCfg, ctx: &mut Ctx) {
             }
         }
     }
+    // (f2) the joiner's first persist meets a storage failure at each of its calls in turn and is
+    //      retried: afterwards the used key package is gone and the Welcome works no more
+    {
+        let mut w0 = base.w.clone();
+        let joined = w0.run(|w| w.join(D, &base.welcome, right_tree()));
+        if matches!(joined, Ok(Ok(()))) {
+            // number of storage calls of a fault-free persist
+            let n = {
+                let mut w = w0.clone();
+                w.run(|w| {
+                    stores::peek(D as u32, |s| s.reset_calls());
+                    let _ = w.gm(D).write_to_storage();
+                    stores::peek(D as u32, |s| s.calls.len())
+                })
+                .unwrap_or(0)
+            };
+            for k in 0..n {
+                let mut w = w0.clone();
+                ctx.cur_trail = vec![format!("matrix[{}]: first persist of the joiner, storage call {k} of {n} fails once, then retried", cfg.label())];
+                let r = w.run(|w| {
+                    stores::peek(D as u32, |s| {
+                        s.reset_calls();
+                        s.fail_calls.insert(k);
+                    });
+                    let first = w.gm(D).write_to_storage();
+                    let failed = stores::peek(D as u32, |s| s.calls.iter().find(|c| c.failed).map(|c| format!("{}.{}", c.store, c.op)));
+                    stores::peek(D as u32, |s| s.reset_calls());
+                    let second = w.gm(D).write_to_storage();
+                    let gone = stores::peek(D as u32, |s| !s.kps.contains_key(&base.used_kp));
+                    let again = w.parties[D].client.join_group(right_tree(), &base.welcome, w.now()).map(|_| ());
+                    (first.is_ok(), failed, second, gone, again)
+                });
+                ctx.eval();
+                match r {
+                    Ok((first_ok, failed, second, gone, again)) => {
+                        let Some(fc) = failed else {
+                            ctx.outcome("matrix:first-persist:fault-not-reached");
+                            continue;
+                        };
+                        ctx.goal("matrix-first-persist-retried");
+                        if first_ok {
+                            ctx.violation(format!("persist-swallowed-storage-error|{fc}"), "write_to_storage returned Ok although a storage call failed");
+                        }
+                        if let Err(e) = second {
+                            // the ratchet-independent retry defect of write_to_storage is C15's; here only the key package counts
+                            ctx.outcome(format!("matrix:first-persist-retry:{}", err_name(&e)));
+                            continue;
+                        }
+                        if !gone {
+                            ctx.violation(format!("key-package-kept-after-retried-persist|{fc}"), format!("the joiner's first write_to_storage failed at {fc} and was retried successfully, yet the used key package is still stored"));
+                        }
+                        if again.is_ok() {
+                            ctx.violation(format!("welcome-consumed-twice-after-retried-persist|{fc}"), format!("after a persist that failed at {fc} and was retried, the same Welcome produces a group again"));
+                        }
+                    }
+                    Err(_) => {
+                        let (loc, msg, _) = take_panic();
+                        ctx.violation(format!("panic|matrix|first persist retried|{loc}"), msg);
+                    }
+                }
+            }
+        }
+    }
     // (g) external commit built from the previous epoch's GroupInfo
     {
         let mut w = base.w.clone();
